@@ -13,7 +13,9 @@ From SV Require Import Lib.Base Gen.Consts.
 From SV Require Import Model.Seq32 Model.Assembler Model.TcpBuf Model.TcpTypes Model.Tcp.
 From SV Require Import Proofs.TcpSendBase Proofs.TcpSendInv Proofs.TcpLiveBase Proofs.TcpLiveProofs.
 From SV Require Import Proofs.TcpBurstBase Proofs.TcpBurstStep Proofs.TcpBurstEmit Proofs.TcpBurstProofs.
-From SV Require Import Proofs.TcpBurstExamples.
+From SV Require Import Proofs.TcpBurstExamples Proofs.TcpBurstInv.
+From SV Require Import Proofs.AssemblerProofs Proofs.TcpRecvBase Proofs.TcpRecvWindow Proofs.TcpRecvPayload Proofs.TcpRecvInv Proofs.TcpBurstRx.
+From SV Require Import Proofs.TcpSendTrace.
 
 (* One dispatch that emitted a frame (device accepted it) strictly decreases the measure, and the
    hypotheses hold again afterwards (or the socket has forgotten its connection: RST sent). *)
@@ -88,3 +90,39 @@ Theorem C03_tcp_burst_small_mtu_refuted :
                forall n, exists s', burst_run cx s n s'.
 Proof. exact burst_small_mtu_refuted. Qed.
 Print Assumptions C03_tcp_burst_small_mtu_refuted.
+
+(* The socket-side hypotheses hold in every reachable state: sockets built by tcp_new (sane
+   congestion controller, transmit buffer <= 2^30 octets) and driven by ANY sequence of API calls,
+   parsed segments and dispatches satisfy the C02 invariant, the C05 invariant and [sinv] (whose
+   probe-timer clause is what the repair of D19, /repo 1789dc0, established). *)
+Theorem C03_tcp_burst_reachable_inv : forall s, burst_reach s ->
+  tcp_live_inv s /\ (exists g, inv g s) /\ sinv s.
+Proof. exact burst_reach_inv. Qed.
+Print Assumptions C03_tcp_burst_reachable_inv.
+
+(* [sinv]'s two clauses that are not part of C05's invariant are preserved by every single event. *)
+Theorem C03_tcp_burst_sinv_step : forall cx s ev s' out tags,
+  TcpLiveProofs.ctx_ok cx -> ev_ok ev -> tcp_live_inv s -> sinv13 s ->
+  tcp_step cx s ev = Ok (s', out, tags) -> sinv13 s'.
+Proof. exact step_sinv13. Qed.
+Print Assumptions C03_tcp_burst_sinv_step.
+
+(* For reachable sockets the egress loop returns: what remains as hypotheses are the receive-side
+   arithmetic fact [rx_ok] (part of C04's receiver invariant, next two theorems) and the two
+   user/device-settable ones. *)
+Theorem C03_tcp_poll_egress_returns_reachable : forall fuel cx s budget s' sent tags fin,
+  burst_reach s -> TcpSendInv.ctx_ok cx -> mtu_ok cx -> rx_ok s -> ka_pos s ->
+  iface_poll_egress fuel cx s budget = Ok (s', sent, tags, fin) ->
+  Z.of_nat (length sent) <= burst_bound cx s /\
+  (burst_bound cx s < Z.of_nat fuel -> fin = true).
+Proof. exact tcp_poll_egress_returns_reachable. Qed.
+Print Assumptions C03_tcp_poll_egress_returns_reachable.
+
+Theorem C03_tcp_rx_ok_of_synced : forall S F have irs c s,
+  rx_synced S F have irs c s -> rx_ok s.
+Proof. exact rx_ok_of_synced. Qed.
+Print Assumptions C03_tcp_rx_ok_of_synced.
+
+Theorem C03_tcp_rx_ok_of_unsynced : forall s, rx_unsynced s -> rx_ok s.
+Proof. exact rx_ok_of_unsynced. Qed.
+Print Assumptions C03_tcp_rx_ok_of_unsynced.
